@@ -297,7 +297,13 @@ def r3r4(fb, chk, tag):
             for o in outs0:
                 if o.ret is not None and okness(fb, o.ret) is not False and any(
                         (callee_of(f.blocks[b]["term"]) or {}).get("name", "").startswith("send_") for b in o.path if f.blocks[b]["term"]["k"] == "call"):
-                    rets.add(show(o.ret)[:40])
+                    r_ = show(o.ret)[:40]
+                    if "wait_for_ack" not in r_ and okness(fb, o.ret) is True and \
+                            any(a[0] == "ok" and isinstance(a[1], tuple) and "wait_for_ack" in show(a[1]) for a in o.atoms):
+                        # `wait_for_ack(..)?; Ok(())`: success is returned only on the path where the ack wait succeeded, and its
+                        # failure left through `?`
+                        r_ = "Ok after ok(wait_for_ack)"
+                    rets.add(r_)
             okr = all("wait_for_ack" in r for r in rets) and rets
             chk.check(bool(okr), "R3", key + ":result", "result = wait_for_ack(..) mapped into the API error type",
                       "%s returns %s after sending (the acknowledgement's result must be returned)" % (f.short, sorted(rets)), f.loc())
